@@ -15,3 +15,4 @@ import VibeProof.Props.C27
 #print axioms VibeProof.C27.C27_regress_zero_length
 #print axioms VibeProof.C27.C27_regress_startup_len4
 #print axioms VibeProof.C27.C27_regress_startup_len8
+#print axioms VibeProof.C27.C27_constants_match_source
